@@ -248,7 +248,8 @@ def run_property(prop, tier="quick", replay=None, repo=None, quiet=False, write_
     for n in ctx.notes:
         p("  note: " + n)
     wall = round(time.time() - t0, 2)
-    os.makedirs(os.path.join(VERIF, "evidence", "replay"), exist_ok=True)
+    if write_evidence:
+        os.makedirs(os.path.join(VERIF, "evidence", "replay"), exist_ok=True)
     for (i, k) in known_hit:
         print("KNOWN-FINDING: property=%s %s :: %s (%s)" % (prop, i["rule"], i["key"], k.get("what", i["detail"])))
     seen = set()
@@ -257,6 +258,9 @@ def run_property(prop, tier="quick", replay=None, repo=None, quiet=False, write_
         if rp in seen:
             continue
         seen.add(rp)
+        if not write_evidence:
+            print("VIOLATION property=%s replay=%s (not written)" % (prop, rp))
+            continue
         with open(rp, "w") as fh:
             json.dump({"property": prop, "rule": i["rule"], "key": i["key"], "detail": i["detail"],
                        "at": i.get("at"), "extra": i.get("extra"), "tree": info["tree_hash"],
